@@ -304,7 +304,10 @@ for step,op in enumerate(cfg['hist']):
 print(json.dumps(problems))
 '''
     cfg = dict(hist=c['hist'], d=c['d'], nx=c['nx'], nrho=c['nrho'], nsc=c['nsc'])
-    p = subprocess.run([sys.executable, '-c', code, so, json.dumps(cfg)], capture_output=True, text=True, timeout=300)
+    try:
+        p = subprocess.run([sys.executable, '-c', code, so, json.dumps(cfg)], capture_output=True, text=True, timeout=300)
+    except subprocess.TimeoutExpired:
+        return True, 'the native run does not finish within 300 s (the integration never converges)'
     if p.returncode != 0:
         c['native'] = p.stderr[-400:]
         return True, 'native run crashed: %s' % p.stderr.strip().split('\n')[-1][:160]
